@@ -1,13 +1,24 @@
 """C01 -- check is a sound and complete gate: exit code and statuses follow the rules."""
 import json
 import math
+import struct
 from vlib import *  # noqa
 
 PROP_FILES = ["Check/Properties_C01.v"]
 MANIFEST = dict(
-    technique="Coq proof of the gate theorems (statuses exact, exit 0 sound, exit 1 iff, warn-only forces 0, exit 2 only errors) on a pipeline model that composes baseline comparison, ratchet and exit code over per-path facts; tie = end-to-end CLI differential: generated projects x configurations x flag sets, the per-path facts recomputed independently from the tree (documented scoping and limit semantics, real globset as the only oracle) and fed to the extracted model, whose statuses and exit code are compared with the tool's",
-    text="C01_statuses_exact, C01_exit0_sound, C01_exit1_iff, C01_warn_only_forces_0, C01_exit2_only_errors, C01_ratchet_fails_only_when_strict_and_stale hold for every list of per-file facts, every list of structure results, every baseline and every flag combination (unbounded). The correspondence run establishes that the tool's scoping layer (ignore files, scanner and content excludes, extensions, rule patterns, language recognition, counting modes, last-match limits, warn points, CLI overrides, global directory limits) produces exactly the facts the documented rules assign, on generated trees with boundary-sized files, and that exit codes 0/1/2 follow.",
-    note="Trusted: Coq kernel, extraction, the python re-computation of the scoping rules, globset (oracle), walkdir/ignore crates. Structure rules beyond global limits are C06/C07's; path spellings are C08's (canonical spellings here).",
+    technique="Coq proof of the gate theorems (statuses exact, exit 0 sound, exit 1 iff, warn-only forces 0, exit 2 only errors) on a pipeline model that composes baseline comparison, "
+              "ratchet and exit code over per-path facts, composed (Check/Compose.v, C01_composed_*) with the threshold model of C05 so that scope decision, effective count, limit, warn point "
+              "and the post-override configuration error are computed in Coq; tie = end-to-end CLI differential: generated projects x configurations x flag sets are run through the extracted "
+              "composition `check_command` (content configuration, CLI overrides and, per file, walk result, raw line stats, extension, exclude bits and rule match vector computed with the real "
+              "globset) and its statuses and exit code are compared with the tool's; the earlier python re-computation of the facts is kept as a cross-check on a sub-sample",
+    text="C01_statuses_exact, C01_exit0_sound, C01_exit1_iff, C01_warn_only_forces_0, C01_exit2_only_errors, C01_ratchet_fails_only_when_strict_and_stale hold for every list of per-file facts, "
+         "every list of structure results, every baseline and every flag combination (unbounded); C01_composed_statuses, C01_composed_config_error, C01_composed_nothing_else_reported state the "
+         "same for the facts the threshold model derives from a configuration, overrides and match vectors. The correspondence run executes exactly that composition (extracted check_command): "
+         "selected / counted / effective count / limit / warn point / verdict / configuration error / exit code come from the extracted Coq functions; python supplies only what Coq does not model "
+         "(the walk: ignore files, scanner excludes, which files exist; global directory limits as structure results; glob matching as oracle data through sgv-glob). On a sub-sample the facts and "
+         "the outcome are also recomputed by the independent python oracle and the fact-level model check_run, and the two must agree.",
+    note="Trusted: Coq kernel, extraction, the python walk model (ignore files, scanner excludes) and structure-limit oracle, globset (oracle data), walkdir/ignore crates. Structure rules beyond "
+         "global limits are C06/C07's; path spellings are C08's (canonical spellings here); counting is C02-C04 (files hold trivially classifiable lines).",
     ref="5 (C01)")
 
 EXT_LANG = {"rs": "//", "py": "#", "go": "//", "js": "//"}
@@ -131,7 +142,7 @@ def gen_flags(rng, lim):
     if rng.random() < 0.15:
         f["exclude"] = [rng.choice(["**/tests/**", "*.py", "**/a/**"])]
     if rng.random() < 0.1:
-        f["warn_threshold"] = rng.choice([0.5, 0.7, 1.0])
+        f["warn_threshold"] = rng.choice([0.5, 0.7, 1.0, 0.5, 1.0, 1.5])      # 1.5: rejected by the post-override validation (exit 2)
     return f
 
 
@@ -294,10 +305,8 @@ def config_error(cfg, flags):
     return False
 
 
-def model_line(facts, sres, flags, cfg, baseline):
-    recs = ["RUN %d %d - - %d %d" % (int(config_error(cfg, flags)), 1 if flags["baseline"] else 0, int(flags["warn_only"]), int(flags["wae"] or cfg["wae_cfg"]))]
-    for f in facts:
-        recs.append("F %s %d %d %d %d %d %d" % (enc(f["path"]), f["scanned"], f["selected"], f["counted"], f["count"], f["limit"], f["warn"]))
+def tail_records(sres, baseline):
+    recs = []
     for s in sres:
         recs.append("S %s %s %s %d %d" % (enc(s["path"]), s["vt"], s["status"], s["code"], s["limit"]))
     if baseline is None:
@@ -308,7 +317,65 @@ def model_line(facts, sres, flags, cfg, baseline):
                 recs.append("BC %s %d" % (enc(k), e["lines"]))
             else:
                 recs.append("BS %s %s %d" % (enc(k), "f" if e["violation_type"] == "files" else "d", e["count"]))
-    return ";".join(recs)
+    return recs
+
+
+def model_line(facts, sres, flags, cfg, baseline):
+    """fact-level model (check_run): every per-file fact comes from the python oracle (cross-check path)"""
+    recs = ["RUN %d %d - - %d %d" % (int(config_error(cfg, flags)), 1 if flags["baseline"] else 0, int(flags["warn_only"]), int(flags["wae"] or cfg["wae_cfg"]))]
+    for f in facts:
+        recs.append("F %s %d %d %d %d %d %d" % (enc(f["path"]), f["scanned"], f["selected"], f["counted"], f["count"], f["limit"], f["warn"]))
+    return ";".join(recs + tail_records(sres, baseline))
+
+
+def f64bits(x):
+    return struct.unpack("<Q", struct.pack("<d", float(x)))[0]
+
+
+def opt(x, f=str):
+    return "~" if x is None else f(x)
+
+
+def cmd_records(cfg, flags):
+    """the content configuration and the check overrides, as the extracted check_command takes them"""
+    if cfg["warn"][0] == "thr":
+        wt, wa = f64bits(cfg["warn"][1]), None
+    else:
+        wt, wa = f64bits(1.0), cfg["warn"][1]          # toml_of writes warn_threshold = 1.0 next to warn_at
+    recs = ["CMD %d %d %s %d %d" % (cfg["max_lines"], wt, opt(wa), int(cfg["skip_comments"]), int(cfg["skip_blank"]))]
+    recs += ["E %s" % enc(e) for e in cfg["extensions"]]
+    recs += ["X %s" % enc(p) for p in cfg["content_exclude"]]
+    for r in cfg["rules"]:
+        recs.append("R %s %d %s %s %s %s" % (enc(r["pattern"]), r["max_lines"], opt(r.get("warn_threshold"), lambda t: str(f64bits(t))), opt(r.get("warn_at")),
+                                             opt(r.get("skip_comments"), lambda v: str(int(v))), opt(r.get("skip_blank"), lambda v: str(int(v)))))
+    recs.append("CLI %s %d %d %s %s" % (opt(flags["max_lines"]), int(flags["count_comments"]), int(flags["count_blank"]),
+                                        opt(flags["warn_threshold"], lambda t: str(f64bits(float(str(t))))),
+                                        opt(flags["ext"], lambda e: "+".join(enc(x) for x in e.split(",")))))
+    return recs
+
+
+def input_records(proj, cfg, glob, facts):
+    """per file what the walk, the counter and globset deliver: scanned (python walk model), raw line stats (None when the
+    extension has no language), Path::extension, content.exclude bits and the rule match vector (sgv-glob, real globset)"""
+    rels = sorted(proj.files)
+    glob.match_many([(p, rel) for rel in rels for p in cfg["content_exclude"]] + [(r["pattern"], rel) for rel in rels for r in cfg["rules"]])
+    recs = []
+    for rel, f in zip(rels, facts):
+        assert f["path"] == "./" + rel
+        code, comment, blank, ext = proj.files[rel]
+        ev = "".join("1" if glob.m(p, rel) else "0" for p in cfg["content_exclude"]) or "-"
+        mv = "".join("1" if glob.m(r["pattern"], rel) else "0" for r in cfg["rules"]) or "-"
+        ign = proj.ign.get(rel, 0)
+        stats = "%d,%d,%d,%d,%d" % (code + comment + blank + ign, code, comment, blank, ign) if ext in EXT_LANG else "~"
+        recs.append("I %s %d %s %s %s %s" % (enc(f["path"]), int(f["scanned"]), ev, mv, opt(ext, enc), stats))
+    return recs
+
+
+def command_line(proj, cfg, flags, glob, facts, sres, baseline):
+    """composed model (Check/Compose.v check_command): python supplies the walk (`scanned`), the structure results and the
+    glob oracle data; selected / counted / count / limit / warn / verdict / config error / exit are computed by the extraction"""
+    recs = ["RUN 0 %d - - %d %d" % (1 if flags["baseline"] else 0, int(flags["warn_only"]), int(flags["wae"] or cfg["wae_cfg"]))]
+    return ";".join(recs + cmd_records(cfg, flags) + input_records(proj, cfg, glob, facts) + tail_records(sres, baseline))
 
 
 KIND = {"c": "content", "sf": "file_count", "sd": "dir_count", "sm": "max_depth"}
@@ -316,6 +383,7 @@ STAT = {"P": "passed", "W": "warning", "F": "failed", "G": "grandfathered"}
 
 
 def parse_model(out):
+    out = out.split(" ## ")[0]
     f = out.split(" ")
     res = []
     for x in f[1:]:
@@ -325,6 +393,34 @@ def parse_model(out):
         path = "".join(chr(int(t)) for t in p.split(",")) if p != "-" else ""
         res.append((path, KIND.get(k, k), STAT[s]))
     return int(f[0]), sorted(res)
+
+
+def parse_command(out):
+    """answer of the composed model: (exit, results, config rejected, computed facts)"""
+    mexit, mres = parse_model(out)
+    tail = out.split(" ## ")[1].split(" ")
+    rej = tail[0] == "rej=1"
+    facts = []
+    for x in tail[1:]:
+        if not x:
+            continue
+        p, sc, sel, cnt, count, limit, warn = x.split("|")
+        facts.append({"path": "".join(chr(int(t)) for t in p.split(",")), "scanned": sc == "1", "selected": sel == "1", "counted": cnt == "1",
+                      "count": int(count), "limit": int(limit), "warn": int(warn)})
+    return mexit, mres, rej, facts
+
+
+def facts_differ(py, coq):
+    """python oracle facts vs facts computed by the extracted threshold model (count / limit / warn only matter when counted)"""
+    out = []
+    for a, c in zip(py, coq):
+        ka = (a["path"], a["scanned"], a["selected"], a["counted"]) + ((a["count"], a["limit"], a["warn"]) if a["counted"] else ())
+        kc = (c["path"], c["scanned"], c["selected"], c["counted"]) + ((c["count"], c["limit"], c["warn"]) if c["counted"] else ())
+        if ka != kc:
+            out.append({"python": ka, "coq": kc})
+    if len(py) != len(coq):
+        out.append({"python": len(py), "coq": len(coq)})
+    return out
 
 
 def parse_cli(out):
@@ -377,6 +473,8 @@ def run(ctx):
     n = 120 if ctx.tier == "quick" else 1500
     mism, fails, hist, nontrivial = [], [], {}, set()
     evals = 0
+    xc = {"cases": 0, "disagreements": 0, "first": None}      # python-fact path vs composed Coq path
+    xc_every = 3 if ctx.tier == "quick" else 4
     for k in range(n):
         rng = ctx.rng
         lim = rng.choice([3, 5, 8, 10])
@@ -408,10 +506,25 @@ def run(ctx):
                 facts, sres = oracle(proj, cfg, flags, glob, baseline)
                 rc, out, err = sb.run(exe, cli_args(flags, bl_path), env={"RAYON_NUM_THREADS": "1" if flags.get("fail_fast") else "2"})
                 evals += 1
-                mo, _, _ = run_lines(model, [model_line(facts, sres, flags, cfg, baseline)])
-                if not mo:
-                    raise CheckBroken("pipeline driver died")
-                mexit, mres = parse_model(mo[0])
+                # the composed model decides: scope, count, limit, warn point, verdicts, configuration error, exit code
+                mo, _, _ = run_lines(model, [command_line(proj, cfg, flags, glob, facts, sres, baseline)])
+                if not mo or " ## " not in mo[0]:
+                    raise CheckBroken("pipeline driver died: %s" % (mo[:1],))
+                mexit, mres, rejected, cfacts = parse_command(mo[0])
+                if evals % xc_every == 0:
+                    # cross-check: the independent python facts through the fact-level model check_run must give the same answer
+                    oo, _, _ = run_lines(model, [model_line(facts, sres, flags, cfg, baseline)])
+                    if not oo:
+                        raise CheckBroken("pipeline driver died (fact-level line)")
+                    oexit, ores = parse_model(oo[0])
+                    xc["cases"] += 1
+                    fd = [] if rejected else facts_differ(facts, cfacts)
+                    if (oexit, ores) != (mexit, mres) or fd or rejected != config_error(cfg, flags):
+                        xc["disagreements"] += 1
+                        if xc["first"] is None:
+                            xc["first"] = {"config": toml_of(cfg), "flags": flags, "files": {f: list(v) for f, v in proj.files.items()}, "facts": fd[:6],
+                                           "python_path": [oexit, ores[:8]], "coq_path": [mexit, mres[:8]],
+                                           "config_error": {"python": config_error(cfg, flags), "coq": rejected}}
                 if mexit == 2 and rc == 2 and not out.strip():
                     hist["config_error"] = hist.get("config_error", 0) + 1
                     if not err.strip():
@@ -438,7 +551,7 @@ def run(ctx):
                     # the recorded finding: the structure-aware scanner also applies excludes to bare names
                     qf, qs = oracle(proj, cfg, flags, glob, baseline, basename_reading=True)
                     if [f["scanned"] for f in qf] != [f["scanned"] for f in facts] or qs != sres:
-                        qo, _, _ = run_lines(model, [model_line(qf, qs, flags, cfg, baseline)])
+                        qo, _, _ = run_lines(model, [command_line(proj, cfg, flags, glob, qf, qs, baseline)])
                         qexit, qres = parse_model(qo[0]) if qo else (None, None)
                         lost = sorted(f["path"] for f, g in zip(facts, qf) if f["scanned"] and not g["scanned"])
                         if qres == cres and qexit == rc and lost and ctx.known("K01_basename_exclude", "files dropped: %s" % lost[:4]):
@@ -464,8 +577,14 @@ def run(ctx):
                        "non-trivial = distinct case with at least one non-passed result")
     ctx.cov["input_distribution"] = hist
     ctx.cov["model_vs_impl_mismatches"] = len(mism)
-    ctx.cov["trusted_base"] = TRUSTED_COMMON + ["the scoping re-computation in tools/props/c01.py is the executable reading of the documented rules; .gitignore semantics only for the generator's own simple patterns"]
+    ctx.cov["oracle_cross_check"] = dict(xc, what="python re-computation of the per-file facts + fact-level model check_run against the extracted composition check_command "
+                                                  "(facts, configuration error, statuses, exit code); every %d-th run" % xc_every)
+    ctx.cov["trusted_base"] = TRUSTED_COMMON + ["the walk model in tools/props/c01.py (ignore files, scanner excludes, directory pruning) and its global-directory-limit oracle are the executable reading of the documented rules; .gitignore semantics only for the generator's own simple patterns",
+                                                "glob matching enters the composition as data computed by sgv-glob (real globset); Path::extension and the raw line stats of the generated files are computed by the generator"]
     ctx.assumptions = ["canonical spelling (no path argument); structure rules and placement are C06/C07; counting is C02-C04 (files here hold trivially classifiable lines)"]
+    if xc["disagreements"]:
+        # the two oracles (python facts / extracted composition) disagree: the machinery, not the tool, is inconsistent
+        raise CheckBroken("python fact oracle and extracted check_command disagree on %d/%d cross-checked runs; first: %s" % (xc["disagreements"], xc["cases"], json.dumps(xc["first"], default=str)[:1500]))
     for m in mism[:5]:
         # a disagreement between the tool and the documented rules IS a violation of C01 with the project as replay
         ctx.violation({"kind": "property-oracle", "what": "statuses / exit code differ from the documented rules", **m})
